@@ -73,43 +73,6 @@ def exCfg : TableCfg := ⟨32, 2, none, 4, bytesCompare, fun _ _ => none, fun _ 
 example : ∃ t, Table.open exCfg true (Table.write exCfg exKVs) = some t ∧ t.entries = some exKVs :=
   table_entries_write exCfg (by intro bs; simp only [exCfg]; omega) exKVs exKVs_small (by decide +kernel) true
 
-/-- content of a range-restricted iterator (`NewIterator(&util.Range{Start, Limit})`): the pairs from the first
-key `≥ start` up to (not including) the first key `≥ limit`.  NOT proved in general here (the harness compares
-`entriesInRange` with the Go iterator on every generated table); see `table_range_partial`. -/
-def table_range_full : Prop :=
-  ∀ (cfg : TableCfg), Cksum32 cfg.cksum → LawfulCmp cfg.cmp → SepOK cfg → SuccOK cfg →
-    ∀ (kvs : List KV), SmallKV kvs → StrictSorted cfg.cmp kvs → (∀ kv ∈ kvs.tail, kv.1 ≠ []) →
-      (Table.write cfg kvs).length < 2 ^ 32 → ∀ (verify : Bool) (start limit : Option Bytes),
-        ∃ t, Table.open cfg verify (Table.write cfg kvs) = some t ∧
-          t.entriesInRange start limit = some (TableR.sliceBlock cfg.cmp start limit kvs)
-
-/-- the unrestricted range (`Start = Limit = nil`) yields all pairs -/
-theorem table_range_partial (cfg : TableCfg) (hck : Cksum32 cfg.cksum) (kvs : List KV) (hs : SmallKV kvs)
-    (hsz : (Table.write cfg kvs).length < 2 ^ 32) (verify : Bool) :
-    ∃ t, Table.open cfg verify (Table.write cfg kvs) = some t ∧ t.entriesInRange none none = some kvs := by
-  obtain ⟨t, ho, he⟩ := table_entries_write cfg hck kvs hs hsz verify
-  exact ⟨t, ho, by rw [entriesInRange_none, he]⟩
-
-example : ∃ t, Table.open exCfg true (Table.write exCfg exKVs) = some t ∧
-    t.entriesInRange (some [1, 2]) (some [3]) = some [([1, 2], [11]), ([1, 2, 3], []),
-      ([2], [13, 14, 15, 16, 17, 18, 19, 20, 21, 22, 23, 24, 25])] := by
-  obtain ⟨t, ho, _⟩ := table_entries_write exCfg (by intro bs; simp only [exCfg]; omega) exKVs exKVs_small
-    (by decide +kernel) true
-  refine ⟨t, ho, ?_⟩
-  have : Table.open exCfg true (Table.write exCfg exKVs) = some t := ho
-  revert this
-  cases hopen : Table.open exCfg true (Table.write exCfg exKVs) with
-  | none => intro h; cases h
-  | some t' =>
-    intro h
-    have : t' = t := Option.some.inj h
-    subst this
-    have hev : (Table.open exCfg true (Table.write exCfg exKVs)).bind (fun t => t.entriesInRange (some [1, 2]) (some [3]))
-        = some [([1, 2], [11]), ([1, 2, 3], []), ([2], [13, 14, 15, 16, 17, 18, 19, 20, 21, 22, 23, 24, 25])] := by
-      decide +kernel
-    rw [hopen] at hev
-    exact hev
-
 /-! ## (d) lookups -/
 
 /-- `Reader.Find` (unfiltered) on a written table returns the first pair whose key is not below the sought key,
@@ -164,6 +127,40 @@ example : ∃ t, Table.open exCfg false (Table.write exCfg exKVs) = some t ∧
   let ⟨t, ho, h1, _⟩ := table_get_spec exCfg exCfg_ok exKVs exKVs_small exKVs_sorted exKVs_keys
     (by decide +kernel) false [1, 2]
   ⟨t, ho, h1⟩
+
+/-! ## range-restricted iteration -/
+
+/-- `NewIterator(&util.Range{Start, Limit})` (content of a full forward pass; `nil` bounds are `none`): exactly the
+pairs with `Start ≤ key < Limit` — any bounds, including inverted ones (`Limit ≤ Start`: nothing) and bounds
+outside the key range.  Mirrors `newBlockIter` / `indexIter.Get` after the D21 fix: the index sliced with the
+limit inclusive, the slice applied to the first and the last data block. -/
+theorem table_range_spec (cfg : TableCfg) (hok : CfgOK cfg) (kvs : List KV) (hs : SmallKV kvs)
+    (hsorted : StrictSorted cfg.cmp kvs) (hk : TailKeysNonempty kvs)
+    (hsz : (Table.write cfg kvs).length < 2 ^ 32) (verify : Bool) (start limit : Option Bytes) :
+    ∃ t, Table.open cfg verify (Table.write cfg kvs) = some t ∧
+      t.entriesInRange start limit = some (kvs.filter (inRange cfg.cmp start limit)) :=
+  range_of_write cfg hok kvs hs hsorted hk hsz verify start limit
+
+example : ∃ t, Table.open exCfg true (Table.write exCfg exKVs) = some t ∧
+    t.entriesInRange (some [1, 2]) (some [3]) = some [([1, 2], [11]), ([1, 2, 3], []),
+      ([2], [13, 14, 15, 16, 17, 18, 19, 20, 21, 22, 23, 24, 25])] := by
+  obtain ⟨t, ho, hr⟩ := table_range_spec exCfg exCfg_ok exKVs exKVs_small exKVs_sorted exKVs_keys
+    (by decide +kernel) true (some [1, 2]) (some [3])
+  exact ⟨t, ho, by rw [hr]; decide⟩
+
+/-- inverted bounds yield nothing -/
+example : ∃ t, Table.open exCfg true (Table.write exCfg exKVs) = some t ∧
+    t.entriesInRange (some [3]) (some [1, 2]) = some [] := by
+  obtain ⟨t, ho, hr⟩ := table_range_spec exCfg exCfg_ok exKVs exKVs_small exKVs_sorted exKVs_keys
+    (by decide +kernel) true (some [3]) (some [1, 2])
+  exact ⟨t, ho, by rw [hr]; decide⟩
+
+/-- corollary: the unrestricted range (`Start = Limit = nil`) yields all pairs (no order assumptions needed) -/
+theorem table_range_partial (cfg : TableCfg) (hck : Cksum32 cfg.cksum) (kvs : List KV) (hs : SmallKV kvs)
+    (hsz : (Table.write cfg kvs).length < 2 ^ 32) (verify : Bool) :
+    ∃ t, Table.open cfg verify (Table.write cfg kvs) = some t ∧ t.entriesInRange none none = some kvs := by
+  obtain ⟨t, ho, he⟩ := table_entries_write cfg hck kvs hs hsz verify
+  exact ⟨t, ho, by rw [entriesInRange_none, he]⟩
 
 /-! ## (e) approximate offsets -/
 
@@ -290,13 +287,13 @@ end GoLevel.C13
 /-- the property theorems of C13 -/
 def GoLevel.C13.theorems : List String :=
   ["GoLevel.C13.block_decode_build", "GoLevel.C13.block_seek_spec", "GoLevel.C13.table_entries_write",
-   "GoLevel.C13.table_range_partial", "GoLevel.C13.table_find_spec", "GoLevel.C13.table_get_spec", "GoLevel.C13.offsetOf_monotone",
+   "GoLevel.C13.table_range_spec", "GoLevel.C13.table_find_spec", "GoLevel.C13.table_get_spec", "GoLevel.C13.offsetOf_monotone",
    "GoLevel.C13.filter_partition", "GoLevel.C13.table_filtered_find_stored", "GoLevel.C13.block_damage_detected"]
 
 #print axioms GoLevel.C13.block_decode_build
 #print axioms GoLevel.C13.block_seek_spec
 #print axioms GoLevel.C13.table_entries_write
-#print axioms GoLevel.C13.table_range_partial
+#print axioms GoLevel.C13.table_range_spec
 #print axioms GoLevel.C13.table_find_spec
 #print axioms GoLevel.C13.table_get_spec
 #print axioms GoLevel.C13.offsetOf_monotone
